@@ -28,7 +28,7 @@ Definition part_mentions (p : spart) : list aattr :=
   match p with
   | PId k v => [short_mention s_id v (Nat.ltb 1 (S k))]          (* `##v`: a "multiple" mention *)
   | PClass k v => [short_mention s_class v (Nat.ltb 1 (S k))]
-  | PSet l => map attr_mention l
+  | PSet _ l => map attr_mention (map fst l)
   end.
 Definition written_mentions (e : selem) : list aattr := flat_map part_mentions (se_parts e).
 
@@ -242,22 +242,22 @@ Proof.
   cbn [convert_attributes]. rewrite Ha. cbn [bind]. rewrite IH. reflexivity.
 Qed.
 
-Lemma pointwise_set env : forall l pos, Forall sattr_ok l -> pointwise env (set_tattrs pos l) (map attr_mention l).
+Lemma pointwise_set env : forall l pos,
+  Forall (fun aw => sattr_ok (fst aw) /\ ws_ok (snd aw)) l ->
+  pointwise env (set_tattrs pos l) (map attr_mention (map fst l)).
 Proof.
-  induction l as [|a l IH]; intros pos HF; [constructor|].
-  inversion HF as [|x y Ha HF']; subst. unfold set_tattrs.
-  destruct l as [|b l'].
-  - cbn [lay map fst snd]. constructor; [intros st; apply convert_attribute_wat; exact Ha|constructor].
-  - rewrite lay_cons. cbn [map fst snd]. constructor; [intros st; apply convert_attribute_wat; exact Ha|].
-    apply (IH (pos + length (attr_text a) + 1) HF').
+  induction l as [|[a w] l IH]; intros pos HF; [constructor|].
+  inversion HF as [|x y [Ha _] HF']; subst. cbn [fst] in Ha. unfold set_tattrs.
+  cbn [lay map fst snd]. constructor; [intros st; apply convert_attribute_wat; exact Ha|].
+  apply (IH _ HF').
 Qed.
 
 Lemma pointwise_part env pos p : spart_ok p -> pointwise env (part_tattrs pos p) (part_mentions p).
 Proof.
-  destruct p as [k v|k v|l]; cbn [spart_ok part_tattrs part_mentions]; intros Hok.
+  destruct p as [k v|k v|lead l]; cbn [spart_ok part_tattrs part_mentions]; intros Hok.
   - constructor; [intros st; apply convert_short; auto|constructor].
   - constructor; [intros st; apply convert_short; auto|constructor].
-  - apply pointwise_set. exact Hok.
+  - apply pointwise_set. apply Hok.
 Qed.
 
 Lemma pointwise_parts env : forall ps pos,
@@ -352,10 +352,12 @@ Theorem attr_value_literal jsx env mr (name n : str) (v : sval) :
 Proof.
   intros Hname Hj [Hne [Hsafe [Hdot Hexcl]]] Hv Htext.
   pose (a := mkSAttr false n false v).
-  pose (e := mkSElem name [PSet [a]] None false).
+  pose (e := mkSElem name [PSet [] [(a, [])]] None false).
   assert (Han : aname_text a = n) by (unfold aname_text, a; cbn; apply app_nil_r).
   assert (Hok : selem_ok e).
-  { split; [exact Hname|]. split; [|exact I]. constructor; [|constructor]. cbn [spart_ok]. constructor; [|constructor].
+  { split; [exact Hname|]. split; [|exact I]. constructor; [|constructor]. cbn [spart_ok].
+    split; [constructor|]. split; [|split; [intros H0; exfalso; apply H0; reflexivity|exact I]].
+    constructor; [|constructor]. cbn [fst snd]. split; [|constructor].
     unfold sattr_ok. rewrite Han. cbn [sa_name sa_boolean sa_implied sa_value a]. repeat split; auto. }
   pose proof (element_attributes_text jsx env mr e Hok Hj Htext) as H.
   unfold elem_text, e in H. cbn [se_name se_parts se_text se_close close_text tail_text parts_text part_text attrs_text] in H.
